@@ -277,6 +277,22 @@ pub fn c11(opts: &Opts) -> Report {
             ctx.rep.nontrivial(&(which, in_map, s.clone()));
             ctx.rep.bump(&format!("op_{}_{}", op.name(), if in_map { "map" } else { "top" }));
             ctx.rep.bump(if s.is_ascii() { "arg_ascii" } else { "arg_non_ascii" });
+            // 0b. tracing on: the argument reaches the operation all the same (values of 41+ bytes in at most 40 characters included)
+            if i % 5 == 2 && !in_map {
+                let long: String = match (i / 5) % 3 { 0 => "ж".repeat(21), 1 => "→".repeat(14), _ => format!("{}{}", "a".repeat(35), "é".repeat(4)) };
+                for (arg, xx) in [(s.clone(), x.clone()), (long.clone(), "x".to_string()), (s.clone(), long.clone())] {
+                    let ea = esc(&arg);
+                    for (kw, want) in [("append", format!("{xx}{arg}")), ("prepend", format!("{arg}{xx}")), ("surround", format!("{arg}{xx}{arg}"))] {
+                        let got = real::parse_format(&format!("{{!{kw}:{ea}}}"), &xx);
+                        ctx.rep.bump("traced_arguments");
+                        if got != Out::Ok(want.clone()) {
+                            viol(ctx, "property", format!("C11: with tracing on, format(\"{{!{kw}:{ea}}}\", {xx:?}) = {} but the argument applied to the input gives {want:?}", got.show()),
+                                 vec![("template", format!("{{!{kw}:{ea}}}")), ("input", xx.clone()), ("observed", got.show()), ("expected", want), ("theorem", "C11_arguments_reach_the_operation / C10_transparent".into())]);
+                            return;
+                        }
+                    }
+                }
+            }
             // 0a. the same operation twice in a row with two different arguments: each acts in its place
             if i % 9 == 4 && !x.contains('\n') {
                 let s2: String = if ctx.rng.chance(1, 2) { gens::simple_arg(&mut ctx.rng) } else { format!("{}é", gens::word(&mut ctx.rng)) };
